@@ -140,11 +140,22 @@ type disconnectHandler struct {
 	timer          *time.Timer
 	mu             sync.Mutex
 	disconnectedAt time.Time
+	// generation identifies the latest disconnect notification. A grace timer
+	// only acts if no later disconnect, reconnect or stop superseded it.
+	generation uint64
 }
 
 func (d *disconnectHandler) handleDisconnect() {
 	d.mu.Lock()
 	defer d.mu.Unlock()
+
+	// Every disconnect notification restarts the grace period: a timer armed by
+	// an earlier notification must never fire for a later outage.
+	d.generation++
+	if d.timer != nil {
+		d.timer.Stop()
+		d.timer = nil
+	}
 
 	// Only handle if we're the leader
 	if !d.election.isLeader.Load() {
@@ -171,40 +182,40 @@ func (d *disconnectHandler) handleDisconnect() {
 		d.election.cfg.Metrics.SetConnectionStatus(0, d.election.getMetricsLabels())
 	}
 
-	// Stop existing timer if any
-	if d.timer != nil {
-		d.timer.Stop()
-	}
-
 	// Record disconnect time
 	d.disconnectedAt = time.Now()
 
 	// Start grace period timer
+	generation := d.generation
 	d.timer = time.AfterFunc(gracePeriod, func() {
-		d.handleGracePeriodExpired()
+		d.handleGracePeriodExpired(generation)
 	})
 }
 
 // handleGracePeriodExpired is called when grace period expires
-func (d *disconnectHandler) handleGracePeriodExpired() {
+func (d *disconnectHandler) handleGracePeriodExpired(generation uint64) {
 	d.mu.Lock()
-	defer d.mu.Unlock()
-
-	if d.election.connectionMonitor != nil {
-		if d.election.connectionMonitor.Status() != ConnectionStatusDisconnected {
-			// Reconnected, don't demote
-			log := d.election.getLogger()
-			log.Info("connection_reconnected_before_grace_period",
-				d.election.logWithContext(d.election.ctx)...,
-			)
-			return
-		}
+	if generation != d.generation {
+		// A later disconnect restarted the grace period, or a reconnect
+		// notification / Stop cancelled it while this timer was firing.
+		d.mu.Unlock()
+		log := d.election.getLogger()
+		log.Info("connection_reconnected_before_grace_period",
+			d.election.logWithContext(d.election.ctx)...,
+		)
+		return
 	}
+	d.timer = nil
+	disconnectedDuration := time.Since(d.disconnectedAt)
+	// The demotion and the user callback run without holding d.mu: Stop holds
+	// the election mutex while it waits for d.mu, and becomeFollower needs the
+	// election mutex.
+	d.mu.Unlock()
 
-	// Still disconnected, demote if still leader
+	// No reconnect notification arrived during the grace period (whatever the
+	// connection status says now: closed is not reconnected), demote if still leader
 	if d.election.isLeader.Load() {
 		log := d.election.getLogger()
-		disconnectedDuration := time.Since(d.disconnectedAt)
 		log.Error("demoting_due_to_connection_loss",
 			append(d.election.logWithContext(d.election.ctx),
 				zap.Duration("disconnected_duration", disconnectedDuration),
@@ -228,11 +239,12 @@ func (d *disconnectHandler) handleGracePeriodExpired() {
 	}
 }
 
-// stop stops the grace period timer
+// stop cancels the grace period (reconnect notification or Stop)
 func (d *disconnectHandler) stop() {
 	d.mu.Lock()
 	defer d.mu.Unlock()
 
+	d.generation++
 	if d.timer != nil {
 		d.timer.Stop()
 		d.timer = nil
@@ -240,6 +252,10 @@ func (d *disconnectHandler) stop() {
 }
 
 func (e *kvElection) handleReconnect() {
+	// Cancel the grace period under the handler's own mutex, before taking the
+	// election mutex (the expiry path takes them in that order too).
+	e.disconnectHandler.stop()
+
 	e.mu.Lock()
 	defer e.mu.Unlock()
 
@@ -250,11 +266,6 @@ func (e *kvElection) handleReconnect() {
 
 	if e.cfg.Metrics != nil {
 		e.cfg.Metrics.SetConnectionStatus(1, e.getMetricsLabels())
-	}
-
-	if e.disconnectHandler.timer != nil {
-		e.disconnectHandler.timer.Stop()
-		e.disconnectHandler.timer = nil
 	}
 
 	if !e.isLeader.Load() {
